@@ -90,10 +90,14 @@ class FuncInfo:
         params = set(self.params)
         for n in ast.walk(body[0].value):
             if isinstance(n, ast.Name):
-                if n.id not in params and n.id not in ("int", "float", "abs", "min", "max", "round", "len", "tuple", "bool"):
+                if n.id not in params and n.id not in ("int", "float", "abs", "min", "max", "round", "len", "tuple", "bool", "math", "np", "numpy"):
+                    return False
+            elif isinstance(n, ast.Attribute):
+                # math.f / np.f: functions of the (hashable, hence scalar) arguments -- the value is a float / numpy scalar
+                if not (isinstance(n.value, ast.Name) and n.value.id in ("math", "np", "numpy") and n.attr not in ("zeros", "ones", "empty", "array", "asarray", "arange", "linspace", "full", "eye", "random")):
                     return False
             elif isinstance(n, ast.Call):
-                if not (isinstance(n.func, ast.Name) and n.func.id in ("int", "float", "abs", "min", "max", "round", "len", "tuple", "bool")):
+                if not ((isinstance(n.func, ast.Name) and n.func.id in ("int", "float", "abs", "min", "max", "round", "len", "tuple", "bool")) or isinstance(n.func, ast.Attribute)):
                     return False
             elif not isinstance(n, (ast.BinOp, ast.UnaryOp, ast.Tuple, ast.Constant, ast.Compare, ast.IfExp, ast.BoolOp, ast.operator, ast.unaryop, ast.cmpop, ast.boolop, ast.expr_context)):
                 return False
@@ -188,8 +192,9 @@ class Project:
         self.inert_info = collect_info([m.tree for m in self.modules.values()])
         for m in self.modules.values():
             m.tree, m.desugared = desugar(m.tree, self.inert_info)       # reflective / inert / numpy spellings normalised
-        from .desugar import normalise_keywords, canonical_roles, normalise_super
+        from .desugar import normalise_keywords, canonical_roles, normalise_super, normalise_forwarding
         self.super_calls_normalised = normalise_super([m.tree for m in self.modules.values()])
+        self.forwarders_normalised = normalise_forwarding([m.tree for m in self.modules.values()])
         self.keyword_calls_normalised = normalise_keywords([m.tree for m in self.modules.values()])
         self.role_renames = canonical_roles([m.tree for m in self.modules.values()])
         for mod in self.modules.values():
